@@ -213,6 +213,28 @@ func runNAVCOMMIT(c *Ctx) {
 		fns = append(fns, fn)
 	}
 	sort.Slice(fns, func(i, j int) bool { return ir.PosLess(fns[i].Pos(), fns[j].Pos()) })
+	type diffHit struct {
+		fn, name string
+		eff      Effect
+		call     ssa.CallInstruction
+	}
+	var diffFirst *diffHit
+	diffKinds := map[string]bool{}
+	defer func() {
+		if diffFirst == nil {
+			return
+		}
+		var ks []string
+		for k := range diffKinds {
+			ks = append(ks, k)
+		}
+		sort.Strings(ks)
+		h := diffFirst
+		c.Violation(nextEntry, P.InstrPos(h.call), "diff state changed before a fallible step {"+strings.Join(ks, ", ")+"}",
+			fmt.Sprintf("in %s, %s can fail after the diff state was already changed (%s at %s): NextEntry returns an error, and continuing or retrying drops the popped subtree or desynchronises the two sides; kinds of failure that can strike after a state change: %s",
+				h.fn, h.name, h.eff.Desc, P.InstrPos(h.eff.Instr), strings.Join(ks, ", ")),
+			"earliest state change: "+h.eff.Desc+" at "+P.InstrPos(h.eff.Instr))
+	}()
 	for _, fn := range fns {
 		if ir.ErrorResultIndex(fn.Signature) < 0 {
 			continue
@@ -281,11 +303,16 @@ func runNAVCOMMIT(c *Ctx) {
 			}
 			if diffOnly[fn] && nextEntry != nil {
 				// the diff cursor: one finding for the whole step machinery — its retry-safety is
-				// one property of NextEntry, wherever the pops and loads sit after a refactoring
-				c.Violation(nextEntry, P.InstrPos(h.call), "diff state changed before a fallible step",
-					fmt.Sprintf("in %s, %s can fail after the diff state was already changed (%s at %s): NextEntry returns an error, and continuing or retrying drops the popped subtree or desynchronises the two sides",
-						ir.FuncName(fn), n, h.eff.Desc, P.InstrPos(h.eff.Instr)),
-					"earliest state change: "+h.eff.Desc+" at "+P.InstrPos(h.eff.Instr))
+				// one property of NextEntry, wherever the pops and loads sit after a refactoring.
+				// The finding names the kinds of failure that can strike after the state change
+				// (the store, the callbacks): a new kind of fallible step placed after the pops
+				// (a context check, a new external call) is a different finding.
+				for k := range failSources(c, h.call, map[*ssa.Function]bool{}, 0) {
+					diffKinds[k] = true
+				}
+				if diffFirst == nil {
+					diffFirst = &diffHit{ir.FuncName(fn), n, h.eff, h.call}
+				}
 				continue
 			}
 			c.Violation(fn, P.InstrPos(h.call), "state changed before fallible "+n,
@@ -297,6 +324,7 @@ func runNAVCOMMIT(c *Ctx) {
 }
 
 var reIdx = regexp.MustCompile(`\[[^\[\]]*\]`)
+var reSSAReg = regexp.MustCompile(`^t[0-9]+$`)
 
 // locKey normalises a location path for comparing "the same field of the
 // same object" regardless of the index expression used to reach it.
@@ -700,4 +728,50 @@ func mustPassBetween(a, b ssa.Instruction, pred func(ssa.Instruction) bool) bool
 		return false
 	}
 	return !walk(a.Block(), ir.InstrIndex(a)+1)
+}
+
+// failSources: the kinds of failure a fallible call can report, followed through the repository's own
+// functions down to where the error is born: the store (Persist.Load/Store), a user callback (by role),
+// another call that leaves the repository, or an error the repository constructs itself.
+func failSources(c *Ctx, ci ssa.CallInstruction, seen map[*ssa.Function]bool, d int) map[string]bool {
+	out := map[string]bool{}
+	ext := c.Facts.External(ci)
+	callees := c.Facts.Callees(ci)
+	switch {
+	case strings.HasPrefix(ext, "callback:"):
+		name := strings.TrimPrefix(strings.TrimPrefix(ext, "callback:"), "param ")
+		if reSSAReg.MatchString(name) {
+			name = "(a function value)"
+		}
+		out["callback "+name] = true
+	case len(callees) == 0 && ext != "":
+		out[strings.TrimPrefix(ext, "ext:")] = true
+	}
+	for _, f := range callees {
+		if seen[f] || !c.Facts.MayFail[f] || d > 8 {
+			continue
+		}
+		seen[f] = true
+		inner := false
+		for _, cj := range CallsOf(f) {
+			if ok, _ := fallible(c, cj); ok {
+				inner = true
+				for k := range failSources(c, cj, seen, d+1) {
+					out[k] = true
+				}
+			}
+		}
+		ei := ir.ErrorResultIndex(f.Signature)
+		for _, r := range ir.Returns(f) {
+			if ei >= 0 && ei < len(r.Results) {
+				if call, ok := r.Results[ei].(*ssa.Call); ok {
+					if id := staticID(call); id == "fmt.Errorf" || id == "errors.New" {
+						out["an error of the repository's own"] = true
+					}
+				}
+			}
+		}
+		_ = inner
+	}
+	return out
 }
